@@ -2,10 +2,11 @@
 # False-alarm sweep: every quick check under several VERIF_SEED values on the current tree.
 cd "$(dirname "$0")/.." || exit 2
 SEEDS="${SEEDS:-1 2 3}"
-BUDGET="${BUDGET:-25}"
+# BUDGET unset: the plain quick command (fixed work quota per property); BUDGET=<s>: time-bounded exploration instead
+BUDGET="${BUDGET:-}"
 for s in $SEEDS; do
   for p in C02 C03 C04 C06 C08 C09 C10 C11 C12 C14 C15 C16 C17 C18 C20; do
-    out=$(VERIF_SEED=$s VERIF_BUDGET_S=$BUDGET ./check $p --tier quick 2>&1)
+    out=$(VERIF_SEED=$s VERIF_BUDGET_S=$BUDGET VERIF_SKIP_FRESH=${SKIP_FRESH:-0} ./check $p --tier quick 2>&1)
     rc=$?
     echo "seed=$s $p exit=$rc $(echo "$out" | grep -E 'tier=quick' | tail -1 | cut -c1-110)"
     if [ $rc -ne 0 ]; then echo "$out" | grep -E "VIOLATION|violation found|HARNESS" | head -5; fi
